@@ -330,4 +330,26 @@ def minimise(case, test, seconds=20.0, max_tests=4000, op_variants=None, log=Non
                         if attempt(cand):
                             case, changed, progress = cand, True, True
                             break
+    # final cosmetic step: drop callers whose program is empty and renumber the
+    # others (kept only if the same signature persists)
+    cand = compact_callers(case)
+    if cand is not None and attempt(cand):
+        case = cand
     return case, b.tests
+
+
+def compact_callers(case):
+    progs = case["programs"]
+    keep = [i for i, p in enumerate(progs) if p]
+    if len(keep) == len(progs) or not keep:
+        return None
+    remap = {old: new for new, old in enumerate(keep)}
+    cand = copy.deepcopy(case)
+    cand["programs"] = [progs[i] for i in keep]
+    dec = []
+    for step, frm, to in case.get("decisions", ()):
+        if to not in remap:
+            continue
+        dec.append((step, remap.get(frm, -1), remap[to]))
+    cand["decisions"] = dec
+    return cand
